@@ -18,8 +18,9 @@ Definition sg_cont_line_ok (c : bytes) : bool := wr_cont_ok c && wr_has_text c &
 Definition sg_fl_ok (l : sg_fl) : bool := if fst l then sg_start_ok (snd l) else sg_cont_line_ok (snd l).
 Definition sg_fwire (ls : list sg_fl) : bytes := concat (map (fun l => snd l ++ [CR; LF]) ls).
 Definition sg_fnext (ls : list sg_fl) : bytes := match ls with l :: _ => snd l ++ [CR; LF] | [] => [CR; LF] end.
-Definition sg_fafter (ls : list sg_fl) : bytes := match ls with _ :: r => sg_fwire r ++ [CR; LF] | [] => [] end.
-Lemma sg_fwire_split ls : sg_fwire ls ++ [CR; LF] = sg_fnext ls ++ sg_fafter ls.
+(* tailw = the wire after the empty line (a body) *)
+Definition sg_fafter (tailw : bytes) (ls : list sg_fl) : bytes := match ls with _ :: r => sg_fwire r ++ [CR; LF] ++ tailw | [] => tailw end.
+Lemma sg_fwire_split tailw ls : sg_fwire ls ++ [CR; LF] ++ tailw = sg_fnext ls ++ sg_fafter tailw ls.
 Proof. destruct ls as [|l ls]; [reflexivity|]. unfold sg_fwire. cbn [map concat sg_fnext sg_fafter]. rewrite <- !app_assoc. reflexivity. Qed.
 Lemma sg_fnext_ne ls : sg_fnext ls <> [].
 Proof. destruct ls as [|l ls]; cbn [sg_fnext]; intro E; [discriminate|]. apply app_eq_nil in E. destruct E as [_ E]. discriminate. Qed.
@@ -159,24 +160,24 @@ Lemma sg_rel_len hdr t pend tl rem : sg_rel hdr t pend tl rem -> (length (sg_oli
 Proof. intros [[E1 E2]|[E1 [E2 _]]]; subst; cbn [sg_olist length]; lia. Qed.
 Lemma sg_lrun_cons x r st : sg_lrun (x :: r) st = sg_lrun r (sg_lstep st x). Proof. reflexivity. Qed.
 
-Definition sg_fhlog (Tend : tx) (hdr : option bytes) (t : tx) (p rw : bytes) : Prop :=
+Definition sg_fhlog (Tend : tx) (tailw : bytes) (hdr : option bytes) (t : tx) (p rw : bytes) : Prop :=
   exists pend tl rem q, sg_rel hdr t pend tl rem /\ forallb sg_fl_ok rem = true /\ (sg_needs_pending rem = true -> pend <> None) /\
-    sg_lrun rem (pend, tl) = Tend /\ p ++ q = sg_fnext rem /\ q <> [] /\ rw = q ++ sg_fafter rem /\
+    sg_lrun rem (pend, tl) = Tend /\ p ++ q = sg_fnext rem /\ q <> [] /\ rw = q ++ sg_fafter tailw rem /\
     sg_ffit (g_field_limit_hard g) (length (sg_olist pend)) rem = true.
 
 (* ---- REQ_HEADERS over the rest of the chunk ---- *)
-Lemma sg_fhdrs_loop d rw' Tend : forall rem c rd p q hdr t pend tl n,
+Lemma sg_fhdrs_loop d rw' Tend tailw : forall rem c rd p q hdr t pend tl n,
   sg_cin c d rd p hdr REQ_HEADERS (Some REQ_HEADERS) (Some H_REQUEST_HEADER_DATA) t ->
   sg_rel hdr t pend tl rem -> forallb sg_fl_ok rem = true -> (sg_needs_pending rem = true -> pend <> None) ->
   sg_lrun rem (pend, tl) = Tend ->
-  p ++ q = sg_fnext rem -> q <> [] -> skipn rd d ++ rw' = q ++ sg_fafter rem ->
+  p ++ q = sg_fnext rem -> q <> [] -> skipn rd d ++ rw' = q ++ sg_fafter tailw rem ->
   sg_ffit (g_field_limit_hard g) (length (sg_olist pend)) rem = true ->
   (length d - rd <= n)%nat ->
   (exists c' p' hdr' t', REQ_HEADERS_loop cb g n c = (ST_DATA_BUFFER, c') /\
      sg_cin c' d (length d) p' hdr' REQ_HEADERS (Some REQ_HEADERS) (Some H_REQUEST_HEADER_DATA) t' /\
-     sg_fhlog Tend hdr' t' p' rw' /\ rw' <> []) \/
-  (exists c', REQ_HEADERS_loop cb g n c = rq_with_tx (tx_state_request_headers cb) c' /\
-     sg_cin c' d (length d) [] None REQ_HEADERS (Some REQ_HEADERS) (Some H_REQUEST_HEADER_DATA) Tend /\ rw' = []).
+     sg_fhlog Tend tailw hdr' t' p' rw' /\ rw' <> []) \/
+  (exists c' rd1, REQ_HEADERS_loop cb g n c = rq_with_tx (tx_state_request_headers cb) c' /\
+     sg_cin c' d rd1 [] None REQ_HEADERS (Some REQ_HEADERS) (Some H_REQUEST_HEADER_DATA) Tend /\ skipn rd1 d ++ rw' = tailw).
 Proof.
   induction rem as [|[b l] r IH]; intros c rd p q hdr t pend tl n H Hrel Ok Hnp Hrun Hpq Hq Hw Hfit Hn.
   all: pose proof (ci_rd _ _ _ _ _ _ _ _ _ H) as Hrd.
@@ -196,19 +197,17 @@ Proof.
       split; [rewrite <- app_assoc, <- Eq; exact Hpq|]. split; [exact Hq2|]. split; [exact Erw|exact Hfit].
     + rewrite Erw. destruct q2; [contradiction|discriminate].
   (* the empty line is complete in this chunk *)
-  - destruct (Cge Lge) as (u2 & Eu & Eaft). cbn [sg_fafter] in Eaft. symmetry in Eaft. apply app_eq_nil in Eaft. destruct Eaft as [Eu2 Erw]. subst u2.
-    rewrite app_nil_r in Eu.
+  - destruct (Cge Lge) as (u2 & Eu & Eaft). cbn [sg_fafter] in Eaft.
     rewrite Eb in Hpq. destruct (sg_app_last _ _ _ _ Hpq Hq) as (q1 & Eq1 & Ep1).
     assert (Nq1 : sg_no_lf q1 = true) by (rewrite <- Ep1, sg_no_lf_app in Nb; apply andb_prop in Nb; apply Nb).
-    assert (Eskip : skipn rd d = q1 ++ LF :: []) by (rewrite Eu, Eq1; reflexivity).
-    assert (Ln : n = (length q1 + S (n - length q1 - 1))%nat) by (rewrite Eu, Eq1, app_length in Lu; cbn [length] in Lu; lia).
+    assert (Eskip : skipn rd d = q1 ++ LF :: u2) by (rewrite Eu, Eq1, <- app_assoc; reflexivity).
+    assert (Ln : n = (length q1 + S (n - length q1 - 1))%nat) by (rewrite Eu, Eq1, !app_length in Lu; cbn [length] in Lu; lia).
     rewrite Ln.
-    destruct (sg_hdr_scan_lf cb g d hdr _ _ t [] q1 c rd p (n - length q1 - 1)%nat H Eskip Nq1) as (c1 & E1 & H1 & Hr1). rewrite E1.
+    destruct (sg_hdr_scan_lf cb g d hdr _ _ t u2 q1 c rd p (n - length q1 - 1)%nat H Eskip Nq1) as (c1 & E1 & H1 & Hr1). rewrite E1.
     assert (Es : p ++ q1 ++ [LF] = [CR; LF]) by (rewrite app_assoc, Ep1; symmetry; exact Eb). rewrite Es in H1.
     pose proof (sg_ffit_next _ _ _ Hfit) as Hl. cbn [sg_fnext length] in Hl.
     destruct (sg_header_line_term cb g c1 d _ hdr _ _ t H1 ltac:(lia)) as (c2 & E2 & H2). rewrite E2.
-    assert (Erd : (rd + length q1 + 1)%nat = length d) by (pose proof (sg_skipn_nil _ _ Hr1); pose proof (ci_rd _ _ _ _ _ _ _ _ _ H1); lia).
-    right. exists c2. split; [reflexivity|]. rewrite <- Erd. split; [|exact Erw].
+    right. exists c2, (rd + length q1 + 1)%nat. split; [reflexivity|]. split; [|rewrite Hr1; symmetry; exact Eaft].
     rewrite (sg_rel_flush _ _ _ _ _ Hrel) in H2. unfold sg_lrun in Hrun. cbn [fold_left] in Hrun. unfold sg_lend in Hrun. cbn [fst snd] in Hrun. rewrite Hrun in H2. exact H2.
   (* the chunk ends inside the current line *)
   - destruct (Clt Llt) as (q2 & Eq & Hq2 & Erw).
@@ -231,7 +230,7 @@ Proof.
     destruct (sg_hdr_scan_lf cb g d hdr _ _ t u2 q1 c rd p (n - length q1 - 1) H Eskip Nq1) as (c1 & E1 & H1 & Hr1). rewrite E1.
     assert (Es : p ++ q1 ++ [LF] = l ++ [CR; LF]) by (rewrite app_assoc, Ep1; symmetry; exact Eb). rewrite Es in H1.
     cbn [sg_fafter] in Eaft. rewrite sg_fwire_split in Eaft.
-    assert (Hw2 : skipn (rd + length q1 + 1) d ++ rw' = sg_fnext r ++ sg_fafter r) by (rewrite Hr1; symmetry; exact Eaft).
+    assert (Hw2 : skipn (rd + length q1 + 1) d ++ rw' = sg_fnext r ++ sg_fafter tailw r) by (rewrite Hr1; symmetry; exact Eaft).
     assert (Ln2 : (length d - (rd + length q1 + 1) <= n - length q1 - 1)%nat) by (rewrite Eu, Eq1, !app_length in Lu; cbn [length] in Lu; lia).
     rewrite sg_lrun_cons in Hrun.
     destruct b.
@@ -271,28 +270,27 @@ Proof.
       * right. exact HB.
 Qed.
 
-(* ---- a call that starts (or continues) in REQ_HEADERS ---- *)
-Hypothesis Hspace : g_allow_space_uri g = false.
+(* ---- a call that starts (or continues) in REQ_HEADERS; what follows the empty line is a parameter (Htail) ---- *)
 Variables m u pr : bytes.
-Variable fs : list wr_field.
-Hypothesis Wl : wr_wf_request_line m u pr = true.
-Hypothesis Wb : wr_block_ok fs = true.
-Hypothesis Wnf : existsb (fun f => wr_same (wf_name f) wr_str_content_length || wr_same (wf_name f) wr_str_transfer_encoding) fs = false.
-Hypothesis Wc : wr_eqb m wr_str_connect = false.
-Variable bwt : bytes.
-Let Tend := wr_block_tx fs (sg_th0 g m u pr).
-Let fin := sg_fin g m u pr fs.
+Variables bwt tailw : bytes.
+Variable Tend : tx.
+Variable fin : list (option tx) -> Prop.
+Variable ext : connp -> bytes -> Prop.
+Hypothesis Htail : forall c c1 d rd1 rw' f, c_in_state c = REQ_HEADERS ->
+  rq_state_fn cb g REQ_HEADERS c = rq_with_tx (tx_state_request_headers cb) c1 ->
+  sg_cin c1 d rd1 [] None REQ_HEADERS (Some REQ_HEADERS) (Some H_REQUEST_HEADER_DATA) Tend -> skipn rd1 d ++ rw' = tailw ->
+  exists cF rc, rq_loop cb g (6 + f) false c = (cF, rc) /\ sg_post m u pr bwt (sg_fhlog Tend tailw) fin ext cF rw'.
 
 Lemma sg_fcall_hdrs c d rd p hdr t rw' f :
   sg_cin c d rd p hdr REQ_HEADERS (Some REQ_HEADERS) (Some H_REQUEST_HEADER_DATA) t ->
-  sg_fhlog Tend hdr t p (skipn rd d ++ rw') ->
-  exists cF rc, rq_loop cb g (6 + f) false c = (cF, rc) /\ sg_post m u pr bwt (sg_fhlog Tend) fin cF rw'.
+  sg_fhlog Tend tailw hdr t p (skipn rd d ++ rw') ->
+  exists cF rc, rq_loop cb g (6 + f) false c = (cF, rc) /\ sg_post m u pr bwt (sg_fhlog Tend tailw) fin ext cF rw'.
 Proof.
   intros H (pend & tl & rem & q & Hrel & Ok & Hnp & Hrun & Hpq & Hq & Hw & Hfit).
   assert (Es : c_in_state c = REQ_HEADERS) by apply (ci_state _ _ _ _ _ _ _ _ _ H).
   assert (Ef : rq_state_fn cb g REQ_HEADERS c = REQ_HEADERS_loop cb g (length d - rd) c).
   { cbn [rq_state_fn]. unfold REQ_HEADERS_fn. rewrite (ci_len _ _ _ _ _ _ _ _ _ H), (ci_read _ _ _ _ _ _ _ _ _ H). reflexivity. }
-  destruct (sg_fhdrs_loop d rw' Tend rem c rd p q hdr t pend tl (length d - rd) H Hrel Ok Hnp Hrun Hpq Hq Hw Hfit (le_n _)) as [HA|HB].
+  destruct (sg_fhdrs_loop d rw' Tend tailw rem c rd p q hdr t pend tl (length d - rd) H Hrel Ok Hnp Hrun Hpq Hq Hw Hfit (le_n _)) as [HA|HB].
   - destruct HA as (c' & p' & hdr' & t' & EA & HA1 & HA2 & HA3).
     assert (Lim : (length p' + length (sg_olist hdr') <= g_field_limit_hard g)%nat).
     { destruct HA2 as (pe & te & re & q' & Hr' & _ & _ & _ & Epq & _ & _ & Fit). pose proof (sg_ffit_next _ _ _ Fit) as L. rewrite <- Epq, app_length in L.
@@ -300,12 +298,30 @@ Proof.
     destruct (sg_exit_buffer cb g Hcb c' d p' hdr' _ _ t' HA1 Lim) as (cF & EF & HF).
     exists cF, c_HTP_STREAM_DATA. split.
     + change (6 + f)%nat with (S (5 + f)). apply sg_rq_loop_inl. unfold rq_iter. rewrite Es, Ef, EA, EF. reflexivity.
-    + left. split; [exact HA3|]. right. exists p', hdr', t'. split; [exact HF|exact HA2].
-  - destruct HB as (c' & EB & HB1 & HB2). rewrite <- Ef in EB.
-    destruct (sg_tail cb g Hcb Hspace m u pr fs Wl Wb Wnf Wc c c' d (1 + f) Es EB HB1) as (cF & rc & E & T).
-    exists cF, rc. split; [exact E|]. right. split; [exact HB2|exact T].
+    + left. split; [exact HA3|]. right. left. exists p', hdr', t'. split; [exact HF|exact HA2].
+  - destruct HB as (c' & rd1 & EB & HB1 & HB2). rewrite <- Ef in EB.
+    apply (Htail c c' d rd1 rw' f Es EB HB1 HB2).
 Qed.
 End Fold.
+
+(* Stage 3: nothing follows the empty line *)
+Lemma sg_ftail0 cb g : wr_all_ok cb -> g_allow_space_uri g = false -> forall m u pr fs,
+  wr_wf_request_line m u pr = true -> wr_block_ok fs = true ->
+  existsb (fun f => wr_same (wf_name f) wr_str_content_length || wr_same (wf_name f) wr_str_transfer_encoding) fs = false ->
+  wr_eqb m wr_str_connect = false -> forall bwt,
+  forall c c1 d rd1 rw' f, c_in_state c = REQ_HEADERS ->
+  rq_state_fn cb g REQ_HEADERS c = rq_with_tx (tx_state_request_headers cb) c1 ->
+  sg_cin c1 d rd1 [] None REQ_HEADERS (Some REQ_HEADERS) (Some H_REQUEST_HEADER_DATA) (wr_block_tx fs (sg_th0 g m u pr)) -> skipn rd1 d ++ rw' = [] ->
+  exists cF rc, rq_loop cb g (6 + f) false c = (cF, rc) /\
+    sg_post m u pr bwt (sg_fhlog g (wr_block_tx fs (sg_th0 g m u pr)) []) (sg_fin g m u pr fs) (fun _ _ => False) cF rw'.
+Proof.
+  intros Hcb Hsp m u pr fs Wl Wb Wnf Wc bwt c c1 d rd1 rw' f Es Ef H1 Hw.
+  apply app_eq_nil in Hw. destruct Hw as [Hs Hrw].
+  assert (Erd : rd1 = length d) by (pose proof (sg_skipn_nil _ _ Hs); pose proof (ci_rd _ _ _ _ _ _ _ _ _ H1); lia).
+  rewrite Erd in H1.
+  destruct (sg_tail cb g Hcb Hsp m u pr fs Wl Wb Wnf Wc c c1 d (1 + f) Es Ef H1) as (cF & rc & E & T).
+  exists cF, rc. split; [exact E|]. right. split; [exact Hrw|exact T].
+Qed.
 
 (* ================= the folded grammar ================= *)
 (* a field together with the pieces p0 :: rest its body lws1 ++ v ++ lws2 is written in (SWire: wr_fold_ok, wr_folded_lines);
@@ -439,12 +455,14 @@ Proof.
   assert (Okf : forallb (fun fp => wr_field_ok (fst fp)) fps = true).
   { pose proof (sg_okf fs Wb) as O. rewrite <- Efs in O. rewrite forallb_forall in O. apply forallb_forall. intros fp Hin. apply O. apply in_map. exact Hin. }
   destruct (sg_block_flat_ok fps Okf Hfo) as (Fok & Fnp). fold flat in Fok, Fnp.
-  assert (Hstart : sg_fhlog g (wr_block_tx fs (sg_th0 g m u p)) None (sg_th0 g m u p) [] (sg_fwire flat ++ [CR; LF])).
+  assert (Hstart : sg_fhlog g (wr_block_tx fs (sg_th0 g m u p)) [] None (sg_th0 g m u p) [] (sg_fwire flat ++ [CR; LF])).
   { exists None, (sg_th0 g m u p), flat, (sg_fnext flat). split; [left; split; reflexivity|]. split; [exact Fok|]. split; [rewrite Fnp; discriminate|].
     split; [unfold sg_lrun, flat; rewrite (sg_block_lrun fps _ Hfo), Efs; reflexivity|]. split; [reflexivity|]. split; [apply sg_fnext_ne|].
-    split; [apply sg_fwire_split|exact Hfit]. }
-  destruct (sg_all_chunks cb g Hcb Hsp m u p Wl Hl0 (sg_fwire flat ++ [CR; LF]) _ (sg_fin g m u p fs) Hstart
-              (sg_fcall_hdrs cb g Hcb Hsp m u p fs Wl Wb Wnf Wc (sg_fwire flat ++ [CR; LF])) chunks Hall Hc) as (fl & T).
+    split; [apply (sg_fwire_split [])|exact Hfit]. }
+  destruct (sg_all_chunks cb g Hcb Hsp m u p Wl Hl0 (sg_fwire flat ++ [CR; LF]) _ (sg_fin g m u p fs) (fun _ _ => False) Hstart
+              (fun c rw (F : False) => match F with end) (fun c rw x rw' (F : False) => match F with end)
+              (sg_fcall_hdrs cb g Hcb m u p (sg_fwire flat ++ [CR; LF]) [] _ _ _ (sg_ftail0 cb g Hcb Hsp m u p fs Wl Wb Wnf Wc (sg_fwire flat ++ [CR; LF])))
+              chunks Hall Hc) as (fl & T).
   exists (sg_tfin g m u p fs fl). split; [exact T|]. unfold sg_tref. cbn [wq_method wq_uri wq_protocol wq_fields]. apply sg_mask_tfin.
 Qed.
 
